@@ -117,6 +117,18 @@ PROPS = {
                        "stream types, sizes implied by counts, every stored RVA resolves to an object inside the image, no overlap except the two "
                        "intentional aliases) is evaluated on every real image.",
     },
+    "C19": {
+        "rule": "live: 2 … 5 dump requests on one configured writer against a blocked target, then one request on a freshly configured writer; every "
+                "image is decoded into a canonical, offset-independent summary (threads with stack and context fingerprints, modules, memory list, "
+                "exception, system info, names, handles, linker data; raw /proc text only by presence) and compared with the fresh writer's. "
+                "Distinct = distinct (k, option vector, summary length).",
+        "expected_tags": ["k.2", "k.3", "k.4", "k.5", "cfg.crash", "cfg.app", "cfg.skip"],
+        "trusted_base": ["the target is blocked in raw syscalls, so its state is the same at every request"],
+        "assumptions": ["Linux writer only (src/mac has the same field but cannot be built here)"],
+        "explanation": "C19 theorems over the model of the writer's per-request state: with the reset on entry an image is independent of the state left by "
+                       "earlier requests, hence in every history each image equals a fresh writer's; source fact (regenerated): dump() resets the three "
+                       "fields; counterexample theorem for the unrepaired code. Live histories check the real writer.",
+    },
 }
 
 NOT_APPLICABLE = {}
